@@ -3,7 +3,8 @@ import os, sys, json, math
 import vcommon as V
 import c02gen as G
 
-PROPS = ["coq/C02/Properties_C02.v", "coq/C02/Properties_C02_rot.v", "coq/C02/Properties_C02_sym.v", "coq/C02/Properties_C02_fit.v"]
+PROPS = ["coq/C02/Properties_C02.v", "coq/C02/Properties_C02_rot.v", "coq/C02/Properties_C02_sym.v", "coq/C02/Properties_C02_fit.v",
+         "coq/C02/Properties_C02_load.v"]
 EXTRACT = "coq/C02/Extract_C02.v"
 DRIVER = "props/C02/driver.ml"
 UNIT = {"c02unit": ["props/C02/unit.cpp"]}
@@ -380,7 +381,19 @@ def gen_fitted_case(r):
         extra = ["centerToReference on", "rotateToReference on", "fittingGroup {", "  atomNumbers " + " ".join(map(str, fit_ids)), "}", reftxt]
         groups = [other[:max(1, len(other) - 1)]]
     return {"comp": "cartesian", "pbc": 1, "params": {"use": [1, 1, 1]}, "groups": groups, "atoms": atoms, "cell": None,
-            "group_extra": {"atoms": extra}, "fitmode": mode, "fit_ids": fit_ids}
+            "group_extra": {"atoms": extra}, "fitmode": mode, "fit_ids": fit_ids, "fitref": ref}
+
+
+def fitted_model_line(c):
+    def grp(ids):
+        t = ["G", "%d" % len(ids)]
+        for i in ids:
+            t += ["%d" % (i - 1)] + [G.hx(x) for x in c["atoms"][i - 1]]
+        return t
+    t = ["fitcart", "1", "0", G.hx(0.0), G.hx(0.0), G.hx(0.0), "0" if c["fitmode"] == "centeronly" else "1", "%d" % len(c["fitref"])]
+    t += [G.hx(x) for v in c["fitref"] for x in v]
+    t += grp(c["fit_ids"]) + grp(c["groups"][0])
+    return " ".join(t)
 
 
 # ---------------------------------------------------------------------------------------------
@@ -541,6 +554,40 @@ def check(run):
     for cs in tie_cases:
         i = impl.add(G.impl_line(cs)); m = mod.add(G.model_line(cs))
         jobs.append(("tie", cs, i, m))
+    # rmsd with atomPermutation (symmetry-adapted RMSD)
+    for k in range(8 * scale):
+        c = gen_ref_case(r, "rmsd")
+        if c is None:
+            continue
+        ids = G.dedup(c["groups"][0]); n = len(ids)
+        perms = []
+        for _ in range(r.randint(1, 3)):
+            pl = list(ids)
+            if r.random() < 0.5:
+                a, b = r.sample(range(n), 2); pl[a], pl[b] = pl[b], pl[a]
+                if r.random() < 0.6:      # the two atoms really are exchanged: the permuted copy is the closer one
+                    pa, pb = c["atoms"][ids[a] - 1][2:5], c["atoms"][ids[b] - 1][2:5]
+                    c["atoms"][ids[a] - 1][2:5], c["atoms"][ids[b] - 1][2:5] = pb, pa
+            else:
+                r.shuffle(pl)
+            perms.append(pl)
+        c["params"]["perms"] = perms
+        t = ["rmsdperm", "1", "0", G.hx(0.0), G.hx(0.0), G.hx(0.0), "%d" % n] + [G.hx(x) for v in c["params"]["ref"] for x in v]
+        t += ["%d" % len(perms)] + ["%d" % ids.index(a) for pl in perms for a in pl]
+        t += ["G", "%d" % n]
+        for i in ids:
+            t += ["%d" % (i - 1)] + [G.hx(x) for x in c["atoms"][i - 1]]
+        i = impl.add(G.impl_line([c])); m = mod.add(" ".join(t))
+        c["tol"] = 1e-7
+        jobs.append(("tie", [dict(c, comp="rmsd:atomPermutation")], i, m))
+    # groups fitted on a reference (centerToReference, rotateToReference, fittingGroup): coordinates in the fitted frame
+    for k in range(10 * scale):
+        c = gen_fitted_case(r)
+        if c is None:
+            continue
+        i = impl.add(G.impl_line([c])); m = mod.add(fitted_model_line(c))
+        c["tol"] = 1e-7
+        jobs.append(("tie", [dict(c, comp="fitted:" + c["fitmode"])], i, m))
     # coordNum with a pair list: built at the first step, used (stale) at the second step with moved atoms
     for k in range(12 * scale):
         c = gen_until(r, "coordNum", generic=(k % 2 == 1), dup=0.0)
@@ -582,6 +629,25 @@ def check(run):
             cj["idx"] = [impl.add(l) for l in cj["lines"]]
             jobs.append(("lines-same", cj, None, None))
 
+    # ---------------- C2. create_sorted_ids / load_coords: file order (increasing id) vs listing order of the group
+    sdir2 = os.path.join(V.BUILD, "scratch", "C02load"); os.makedirs(sdir2, exist_ok=True)
+    for k in range(25 * scale):
+        natoms = r.randint(4, 12)
+        n = r.randint(3, natoms)
+        listing = r.sample(range(1, natoms + 1), n)
+        if k % 5 == 0:
+            listing = sorted(listing)
+        full = (k % 2 == 0) and n < natoms       # file with all atoms of the system (entries looked up by atom number) or exactly n entries
+        entries = {i: [V.dyadic(r, -9, 9, bits=5) for _ in range(3)] for i in range(1, natoms + 1)}
+        f = os.path.join(sdir2, "load_%d.xyz" % k)
+        G.write_xyz(f, [entries[i] for i in (range(1, natoms + 1) if full else sorted(listing))])
+        li = [impl.add("SORTMAP %d %d %s" % (natoms, n, " ".join(map(str, listing)))),
+              impl.add("LOADXYZ %d %d %s | %s" % (natoms, n, " ".join(map(str, listing)), f))]
+        ids0 = [i - 1 for i in listing]
+        lm = [mod.add("SORTMAP %d %s" % (n, " ".join(map(str, ids0)))),
+              mod.add("LOADC %d %s %s" % (n, " ".join(map(str, ids0)), " ".join(G.hx(x) for i in sorted(listing) for x in entries[i])))]
+        jobs.append(("load", {"listing": listing, "entries": entries, "i": li, "m": lm, "full": full}, None, None))
+
     # ---------------- D. optimal rotation: dump and verify the eigen-decomposition
     rots = gen_rotations(r, 60 * scale)
     for ro in rots:
@@ -622,6 +688,21 @@ def check(run):
                 run.sample({"tie": impl.lines[i][:400], "impl": iout[i], "model": mout[m]}); nsample += 1
         elif kind == "special":
             judge_special(run, obj, impl.lines[i], iout[i], mod.lines[m], mout[m])
+        elif kind == "load":
+            run.count("load/%s/%s" % (obj["listing"], obj["full"]), sorted(obj["listing"]) != obj["listing"])
+            run.dist("tie:load_coords:" + ("full-file" if obj["full"] else "group-file"))
+            rep = replay_obj("lines", [impl.lines[k] for k in obj["i"]], {"model_lines": [mod.lines[k] for k in obj["m"]]})
+            a_map = iout[obj["i"][0]].replace("ok ", "", 1).strip(); b_map = mout[obj["m"][0]].strip()
+            if a_map != b_map:
+                run.mismatch("value:sorted_ids_map", impl.lines[obj["i"][0]], a_map, b_map)
+            a = parse_impl(iout[obj["i"][1]]); b = parse_model(mout[obj["m"][1]])
+            exp = [x for i in obj["listing"] for x in obj["entries"][i]]
+            if a is None or a != exp:
+                run.violation("load:positions-attached-to-wrong-atoms",
+                              "positions loaded from a file for the group listed as %s: atom %s should carry %s; got %s" % (
+                                  obj["listing"], obj["listing"][0], obj["entries"][obj["listing"][0]], a[:3] if a else iout[obj["i"][1]][:80]), rep)
+            if a is not None and b is not None and a != b:
+                run.mismatch("value:load_coords", impl.lines[obj["i"][1]], iout[obj["i"][1]][:200], mout[obj["m"][1]][:200])
         elif kind == "pairlist":
             a = parse_impl(iout[i]); b = parse_model(mout[m]); a0 = parse_impl(iout[obj["i"][0]])
             run.count("pairlist/" + case_key(obj["case"]) + "/%g" % obj["amp"], True)
